@@ -225,6 +225,7 @@ class String(Parseable[bytes], metaclass=ABCMeta):
             raise TypeError(value)
         if not binary and len(ascii_) < 64 \
                 and b'\n' not in ascii_ \
+                and b'\r' not in ascii_ \
                 and b'\x00' not in ascii_:
             return QuotedString(ascii_)
         else:
